@@ -197,6 +197,7 @@ type FuncContract struct {
 	Trusted   bool // body not verified (listed as assumption)
 	NoBody    bool // only used as callee contract
 	AllowPanic bool
+	OwnState   bool // iface contracts: implementations may update their receiver's own cell (opaque to callers of the interface)
 	Line      int
 	File      string
 	Schema    string
@@ -308,7 +309,7 @@ func (p *parser) ident() (string, error) {
 }
 
 var itemKeywords = map[string]bool{"strmap": true, "spec": true, "axiom": true, "lemma": true, "func": true, "external": true, "iface": true, "table": true, "schema": true}
-var clauseKeywords = map[string]bool{"requires": true, "ensures": true, "modifies": true, "loop": true, "invariant": true, "pure": true, "trusted": true, "props": true, "use": true, "bounded": true, "assumes": true, "allowpanic": true, "nobody": true, "uses": true, "keys": true, "sem": true, "local": true, "absfloat": true, "cite": true, "reveal": true, "yields": true}
+var clauseKeywords = map[string]bool{"requires": true, "ensures": true, "modifies": true, "loop": true, "invariant": true, "pure": true, "trusted": true, "props": true, "use": true, "bounded": true, "assumes": true, "allowpanic": true, "ownstate": true, "nobody": true, "uses": true, "keys": true, "sem": true, "local": true, "absfloat": true, "cite": true, "reveal": true, "yields": true}
 
 func parseSpecFile(pkg, file, src string) (*SpecFile, error) {
 	lines := extractSpecLines(src)
@@ -784,6 +785,8 @@ func (p *parser) parseContract(sf *SpecFile) (*FuncContract, error) {
 			c.NoBody = true
 		case "allowpanic":
 			c.AllowPanic = true
+		case "ownstate":
+			c.OwnState = true
 		case "requires", "ensures", "invariant", "assumes":
 			cl := Clause{Line: tk.line}
 			if p.acceptP("[") {
